@@ -15,9 +15,9 @@ use std::collections::BTreeMap;
 pub const SPEC: PropSpec = PropSpec {
     id: "C15",
     level: "exploration",
-    rule: "Cases = (document = serialization of a generated family value, list of rewrites with sites). Rewrites, applied on R_tok's token stream of the document: comment or PI inserted at a token boundary or inside a text (never inside an entity reference); whitespace inserted between children of element-only content (elements named s_* / k_*); a text replaced by a CDATA section (whole, or split at a point not adjacent to whitespace) or one non-whitespace character replaced by a decimal / hexadecimal character reference; <x/> <-> <x></x>; attribute order permuted, quote kind swapped (re-escaping that quote), spaces added around '=' and between attributes; XML declaration, prolog comment, trailing comment/whitespace added; unknown attribute added to struct elements; unknown child element with attributes and nested content added at the start or end of struct elements that have no $value field and are not maps. For documents of at most 12 tokens every rewrite is applied at EVERY applicable site and random pairs are composed; for larger ones 1-6 random rewrites are composed. Oracle: from_str(original) == Ok(value) and from_str(rewritten) == Ok(value). Non-trivial = the rewrite changed the document inside the root element.",
+    rule: "Cases = (document = serialization of a generated family value, list of rewrites with sites). Rewrites, applied on R_tok's token stream of the document: comment or PI inserted at a token boundary or inside a text (never inside an entity reference); whitespace inserted between children of element-only content (elements named s_* / k_*); a text replaced by a CDATA section (whole, or split at a point not adjacent to whitespace) or one non-whitespace character replaced by a decimal / hexadecimal character reference; <x/> <-> <x></x>; attribute order permuted, quote kind swapped (re-escaping that quote), spaces added around '=' and between attributes, whitespace added before the '>' / '/>' of any tag; XML declaration, prolog comment, trailing comment/whitespace added; unknown attribute added to struct elements; unknown child element with attributes and nested content added at the start or end of struct elements that have no $value field and are not maps. For documents of at most 12 tokens every rewrite is applied at EVERY applicable site and random pairs are composed; for larger ones 1-6 random rewrites are composed. Oracle: from_str(original) == Ok(value) and from_str(rewritten) == Ok(value). Non-trivial = the rewrite changed the document inside the root element.",
     assumptions: &["the element naming convention of the family (s_/k_/x_/t_/m_/u_) tells the rewriter which content model an element has", "xs:list texts: the separator space is never replaced by a reference (an escaped space is documented to be part of an item)", "R_tok / R_attr are used as tools to find rewrite sites"],
-    required: &["rewrite.comment_at_boundary", "rewrite.comment_in_text", "rewrite.pi", "rewrite.whitespace", "rewrite.cdata_whole", "rewrite.cdata_split", "rewrite.charref_dec", "rewrite.charref_hex", "rewrite.empty_to_pair", "rewrite.pair_to_empty", "rewrite.attr_permute", "rewrite.attr_quote_swap", "rewrite.attr_spacing", "rewrite.prolog", "rewrite.trailing", "rewrite.unknown_attr", "rewrite.unknown_child_start", "rewrite.unknown_child_end", "exhaustive_site_docs", "types_seen_all"],
+    required: &["rewrite.comment_at_boundary", "rewrite.comment_in_text", "rewrite.pi", "rewrite.whitespace", "rewrite.cdata_whole", "rewrite.cdata_split", "rewrite.charref_dec", "rewrite.charref_hex", "rewrite.empty_to_pair", "rewrite.pair_to_empty", "rewrite.attr_permute", "rewrite.attr_quote_swap", "rewrite.attr_spacing", "rewrite.prolog", "rewrite.trailing", "rewrite.unknown_attr", "rewrite.unknown_child_start", "rewrite.unknown_child_end", "rewrite.tag_spacing", "exhaustive_site_docs", "types_seen_all"],
     run,
     replay,
     thorough_layers: &[],
@@ -55,13 +55,13 @@ pub fn tokens(xml: &str) -> Option<Vec<Tok>> {
     Some(out)
 }
 
-pub const REWRITES: [&str; 18] = [
+pub const REWRITES: [&str; 19] = [
     "comment_at_boundary", "comment_in_text", "pi", "whitespace", "cdata_whole", "cdata_split", "charref_dec", "charref_hex", "empty_to_pair", "pair_to_empty", "attr_permute",
-    "attr_quote_swap", "attr_spacing", "prolog", "trailing", "unknown_attr", "unknown_child_start", "unknown_child_end",
+    "attr_quote_swap", "attr_spacing", "prolog", "trailing", "unknown_attr", "unknown_child_start", "unknown_child_end", "tag_spacing",
 ];
 
 /// structs with a `$value` field (an unknown child would be taken for a variant)
-const NO_UNKNOWN_CHILD: [&str; 3] = ["s_choice", "s_choices", "s_ovlvalue"];
+const NO_UNKNOWN_CHILD: [&str; 4] = ["s_choice", "s_choices", "s_ovlvalue", "s_valueplus"];
 
 /// parent element name at each boundary 0..=len (boundary i is before token i)
 fn parents(t: &[Tok]) -> Vec<Option<String>> {
@@ -409,6 +409,21 @@ pub fn apply(t: &[Tok], kind: &str, site: usize, counter: &mut usize, variant: u
                 return Some(v);
             }
         }
+        "tag_spacing" => {
+            // whitespace before the closing `>` / `/>` of any tag
+            for (i, tok) in t.iter().enumerate() {
+                if !matches!(tok.kind, Kind::Start | Kind::Empty | Kind::End) {
+                    continue;
+                }
+                if hit(counter) {
+                    let close = if tok.kind == Kind::Empty { 2 } else { 1 };
+                    let ws = [" ", "\n", "\t ", "  "][(variant % 4) as usize];
+                    let mut v = t.to_vec();
+                    v[i].bytes = format!("{}{}{}", &tok.bytes[..tok.bytes.len() - close], ws, &tok.bytes[tok.bytes.len() - close..]);
+                    return Some(v);
+                }
+            }
+        }
         "unknown_attr" => {
             for (i, tok) in t.iter().enumerate() {
                 if matches!(tok.kind, Kind::Start | Kind::Empty) && (tok.name.starts_with("s_") || tok.name.starts_with("x_")) && hit(counter) {
@@ -430,7 +445,11 @@ pub fn apply(t: &[Tok], kind: &str, site: usize, counter: &mut usize, variant: u
                 "<zz_unknown/>",
                 "<zz_unknown><zz_unknown>deep &amp; <![CDATA[x]]></zz_unknown></zz_unknown>",
                 "<zz_unknown><t_s>not mine</t_s><t_item>x</t_item></zz_unknown>",
-            ][(variant % 4) as usize];
+                "<zz_unknown><zz_unknown kind=\"a\"/>tail</zz_unknown>",
+                "<zz_unknown><zz_other/><zz_unknown kind=\"a\">x</zz_unknown>tail</zz_unknown>",
+                "<zz_unknown ><zz_unknown\n>x</zz_unknown ><zz_unknown/></zz_unknown >",
+                "<zz_unknown xmlns:zz=\"u\"><zz:c zz:a=\"1\"/><zz_unknown a=\"1\"><zz_unknown/></zz_unknown></zz_unknown>",
+            ][(variant % 8) as usize];
             // matching Start/End pairs of struct elements
             let mut stack: Vec<usize> = Vec::new();
             for (i, tok) in t.iter().enumerate() {
